@@ -1,7 +1,7 @@
 """C05 — a Solution faithfully reports the evaluated problem (DESIGN §5 C05)."""
 from .common import *
 from .feas import (check_feasibility_rule, origins, PathEval, const_operand, error_propagates, absent_inserts, false_leads_to_error, enum_tests, result_kind, f64_of_operand, item_calls,
-                   dominates_ok, dominates_sem, must_pass_sem, loop_must2 as loop_must, mustcall2 as mustcall, returned_struct, truth_table, canon, field_is_none, value_sources)
+                   dominates_ok, dominates_sem, must_pass_sem, loop_must2 as loop_must, mustcall2 as mustcall, returned_struct, truth_table, canon, field_is_none, value_sources, with_renormalised)
 
 SOME0 = ('std::option::Option::Some', '0')
 INST = 'v1::Instance'; DV = 'v1::DecisionVariable'; CON = 'v1::Constraint'; RC = 'v1::RemovedConstraint'; EC = 'v1::EvaluatedConstraint'
@@ -508,7 +508,7 @@ RELIES_ON = {'C01': ['C01.lookup', 'C01.fields', 'C01.every-term', 'C01.linear-n
 
 def check(ctx):
     body = ctx.method('C05.anchor/Instance::evaluate', INST, 'evaluate', trait='Evaluate')
-    if body is not None: solution_rules(ctx, body)
+    if body is not None: with_renormalised(ctx, body, lambda bd: solution_rules(ctx, bd))
     check_bound_rules(ctx)
     constraint_rules(ctx)
     f = ctx.method('C05.rule/EvaluatedConstraint::is_feasible/anchor', EC, 'is_feasible')
